@@ -106,6 +106,13 @@ def trunc_point(data, **kw):
 
 def make_recurrence(data, start, fmt, reps=3):
     D = data.Duration
+    # single-point recurrences (the constructor drops their interval)
+    if fmt == 31:
+        return data.TimeRecurrence(repetitions=1, start_point=start, duration=D(hours=36))
+    if fmt == 41:
+        return data.TimeRecurrence(repetitions=1, end_point=start, duration=D(hours=36))
+    if fmt == 11:
+        return data.TimeRecurrence(repetitions=reps, start_point=start, end_point=start)
     if fmt == 3:
         return data.TimeRecurrence(repetitions=reps, start_point=start, duration=D(hours=36))
     if fmt == 4:
@@ -401,7 +408,7 @@ def jobs(tier):
             for dk in ("exact", "nominal", "weeks"):
                 J.append(("job_ops", dict(family="duration", opname=op, mode=mode, rep="ord", dkind=dk)))
         for op in recurrence_ops(dummy):
-            for fmt in (1, 3, 4, 0):
+            for fmt in (1, 3, 4, 0, 31, 41) + ((11,) if tier == "thorough" else ()):
                 J.append(("job_ops", dict(family="recurrence", opname=op, mode=mode, rep="ord", fmt=fmt,
                                           ranges={"DOYr": (364, 366), "DOYs": (364, 366), "DOYq": (1, 3), "hd": (-13, 13),
                                                   "dd": (-1, 1)})))
@@ -425,7 +432,7 @@ INFO = {
                    "length no sequence of operations can then alter an earlier value.",
     "bounds": {"quick": {"points": "years 1704 and 2104, dates around end of February / year end / week 52-53, offsets +-3:59, any time incl. 24:00",
                          "durations": "days +-2, hours +-25, minutes/seconds +-1 (every zero/non-zero/sign pattern); nominal years +-2 months +-3 days +-3; weeks +-8",
-                         "recurrences": "3 repetitions of PT36H in the three notations and an unbounded P1D series, anchors on days 364-366",
+                         "recurrences": "3 repetitions of PT36H in the three notations, an unbounded P1D series and single-point recurrences (R1/start/.., R1/../end), anchors on days 364-366",
                          "modes": "gregorian"},
                "thorough": {"modes": "all 4", "representations": "every operation in all 3 representations"}},
     "outside": ["str()/dump/strftime as operations (string layer)", "private _-methods called directly", "attribute assignment by the user",
